@@ -2,7 +2,7 @@
    M = giv_modulo, A = giv_multiplier (Params.v, regenerated from givrandom.h on every run).
    "orc" is GMP's generator as an oracle: any function honouring the documented range of mpz_urandomb / mpz_urandomm. *)
 From Coq Require Import ZArith.
-From C20 Require Import Params Model Model2 ProofsLcg ProofsInt ProofsOrder ProofsRing ProofsDest.
+From C20 Require Import Params Model Model2 ProofsLcg ProofsInt ProofsOrder ProofsRing ProofsDest ProofsGfqx.
 Local Open Scope Z_scope.
 
 (* --- GivRandom *)
@@ -115,3 +115,7 @@ Theorem C20_montgomery_recint_nonzerorandom : Mgru_nonzerorandom_stmt. Proof. ex
 Print Assumptions C20_montgomery_recint_nonzerorandom.
 Theorem C20_rmint_mga_rand : Rm_mga_rand_stmt.                    Proof. exact rm_mga_rand_thm. Qed.
 Print Assumptions C20_rmint_mga_rand.
+Theorem C20_gfqext_table_indices_in_bounds : Gfqx_indices_stmt.   Proof. exact gfqx_indices. Qed.
+Print Assumptions C20_gfqext_table_indices_in_bounds.
+Theorem C20_gfqext_random_canonical : Gfqx_random_stmt.           Proof. exact gfqx_random_thm. Qed.
+Print Assumptions C20_gfqext_random_canonical.
